@@ -981,7 +981,7 @@ package collection
 // when the second lookup (under the barrier) misses too; a loaded value is stored under the key before it is returned, a
 // loader error is returned and nothing is stored.
 //@ func (c *Cache) Take
-//@   property C16
+//@   property C16 C07
 //@   float real
 //@   flag callbacks_noheap
 //@   results val, err
@@ -990,7 +990,7 @@ package collection
 //@   ghost at after doGet#0: v1 = ret0
 //@   ensures implies(hit1, calls(fetch) == old(calls(fetch)) && err == nil && val == v1)
 //@ func (c *Cache) Take closure 0
-//@   property C16
+//@   property C16 C07
 //@   float real
 //@   flag callbacks_noheap
 //@   results v, err
